@@ -40,19 +40,30 @@ def _cli_contig_mode(contigs):
 
 
 def replay(args, outdir):
+    if args['lemma'] == 'L5_job_bookkeeping':
+        a, lemma = args['cex'], args['lemma']
+        import singlecellmultiomics.universalBamTagger.tagging as TG
+        clause = S.check_tagging_job(TG, [a['c0'], a['c1'], a['c2']][:a['n']], [a['v0'], a['v1'], a['v2'], a['v3']])
+        desc = 'molecules per task %r validity %r' % ([a['c0'], a['c1'], a['c2']][:a['n']], [a['v0'], a['v1'], a['v2'], a['v3']])
+        if clause is None:
+            return dict(reproduced=False)
+        return dict(reproduced=True, signature='%s:%s' % (lemma, clause), what='%s: %s' % (clause, desc))
     import importlib
     a, lemma = args['cex'], args['lemma']
-    if lemma in ('L1_contig_jobs', 'L2_region_jobs'):
+    if lemma in ('L1_contig_jobs', 'L2_region_jobs', 'L1b_many_contigs'):
         # the block is cut again from the (unpatched, float-uncut) live source
         from vlib import astcut
         import singlecellmultiomics.universalBamTagger.bamtagmultiome as BT
-        if lemma == 'L1_contig_jobs':
+        if lemma in ('L1_contig_jobs', 'L1b_many_contigs'):
             block = astcut.cut_if(BT, 'tag_multiome_multi_processing', 'one_contig_per_process', 'body',
                                   params=('get_contigs_with_reads', 'input_bam_path'), result='job_gen')
-            names = ['c0', 'c1', 'c2', 'c3', 'c4']
-            contigs = [(names[i], l) for i, l in enumerate([a['l0'], a['l1'], a['l2'], a['l3'], a['l4']][:a['n']])]
-            if a['star'] >= 0:
-                contigs.insert(a['star'], ('*', 0))
+            if lemma == 'L1b_many_contigs':
+                contigs = [('k%02d' % i, 5_000_000 if a['a'] <= i < a['b'] else 900) for i in range(a['n'])] + ([('*', 0)] if a['star'] else [])
+            else:
+                names = ['c0', 'c1', 'c2', 'c3', 'c4']
+                contigs = [(names[i], l) for i, l in enumerate([a['l0'], a['l1'], a['l2'], a['l3'], a['l4']][:a['n']])]
+                if a['star'] >= 0:
+                    contigs.insert(a['star'], ('*', 0))
             clause = S.check_contig_jobs(block, contigs)
             desc = 'contigs (idxstats order) = %r' % (contigs,)
             if clause is not None:
